@@ -6,8 +6,9 @@
                                                             it is idempotent and commutes with concatenation; the
                                                             `if node_key not in nodes` de-duplication never fires for dict keys)
      get_node_template    circuit.py  get_node_template
-     add_node_template    circuit.py  add_node_template   (writes `self.nodes[name] = template` INTO THE CIRCUIT OBJECT found
-                                                            on the path — D27 when that object is reachable twice)
+     add_node_template    circuit.py  add_node_template   (with fix D47: every sub-circuit on the path is deep-copied and the copy
+                                                            re-registered under its name before it is written into; only
+                                                            the root object and fresh copies are ever written)
      node_update_var      operator_graph.py update_var    (`self.operators[self._op_map[op]][var] = val`)
      update_var           circuit.py  update_var, node_vars part: for i, n in enumerate(targets):
                                          deepcopy(get_node_template(n)) ; update_var ; add_node_template(n, copy)
@@ -31,8 +32,8 @@ Definition path := list string.
 Definition aop := (string * list string * vars * vars)%type.      (* name, equations, defaults, variations *)
 Definition anode := list aop.
 Inductive atree :=
-| ALeaf (cid : id) (nodes : list (string * anode)) (edges : list edge)
-| AInner (cid : id) (subs : list (string * atree)) (edges : list edge).
+| ALeaf (nodes : list (string * anode)) (edges : list edge)
+| AInner (subs : list (string * atree)) (edges : list edge).
 
 Definition all : string := "all"%string.
 
@@ -47,21 +48,11 @@ Fixpoint abs (d : nat) (h : heap) (c : id) : option atree :=
   match lookup h c with
   | Some (OCirc ch es) =>
     match d with
-    | O => match mapM (lift (node_den h)) ch with Some ns => Some (ALeaf c ns es) | None => None end
-    | S d' => match mapM (lift (abs d' h)) ch with Some ss => Some (AInner c ss es) | None => None end
+    | O => match mapM (lift (node_den h)) ch with Some ns => Some (ALeaf ns es) | None => None end
+    | S d' => match mapM (lift (abs d' h)) ch with Some ss => Some (AInner ss es) | None => None end
     end
   | _ => None
   end.
-
-(* ids of the CircuitTemplate objects along every path, with multiplicity: the D27 guard is NoDup of this list *)
-Fixpoint circ_ids (t : atree) : list id :=
-  match t with
-  | ALeaf c _ _ => [c]
-  | AInner c ss _ => c :: flat_map (fun x => circ_ids (snd x)) ss
-  end.
-Fixpoint nodupb (l : list nat) : bool :=
-  match l with [] => true | x :: t => negb (existsb (Nat.eqb x) t) && nodupb t end.
-Definition no_shared_subcircuit (t : atree) : bool := nodupb (circ_ids t).
 
 (* ---------------------------------------------------------------- shared helpers (both sides) *)
 Definition name_of (o : aop) : string := fst (fst (fst o)).
@@ -127,7 +118,12 @@ Fixpoint add_node_template (d : nat) (h : heap) (c : id) (n : path) (nid : id) :
     | None => None
     | Some x => match d with
                 | O => Some (hset h c (OCirc (dset p nid ch) es))
-                | S d' => add_node_template d' h x rest nid
+                | S d' =>
+                  (* fix D47: net_node = deepcopy(net_node); net[node[0]] = net_node; net_node.add_node_template(...) *)
+                  match copy_circ d' h [] x with
+                  | Some (h1, _, x') => add_node_template d' (hset h1 c (OCirc (dset p x' ch) es)) x' rest nid
+                  | None => None
+                  end
                 end
     end
   | _, _ => None
@@ -213,13 +209,13 @@ Fixpoint tget_nodes (t : atree) (pat : path) : option (list path) :=
   | [] => None
   | p :: rest =>
     match t with
-    | ALeaf _ ns _ =>
+    | ALeaf ns _ =>
       match rest with
       | [] => if dhas p ns then Some [[p]]
               else if String.eqb p all then Some (map (fun x => [fst x]) ns) else Some []
       | _ => None
       end
-    | AInner _ ss _ =>
+    | AInner ss _ =>
       if String.eqb p all then
         match mapM (fun x => match tget_nodes (snd x) rest with
                              | Some l => Some (map (cons (fst x)) l) | None => None end) ss with
@@ -236,8 +232,8 @@ Fixpoint tget_node (t : atree) (n : path) : option anode :=
   | [] => None
   | p :: rest =>
     match t with
-    | ALeaf _ ns _ => dget p ns
-    | AInner _ ss _ => match dget p ss with Some s => tget_node s rest | None => None end
+    | ALeaf ns _ => dget p ns
+    | AInner ss _ => match dget p ss with Some s => tget_node s rest | None => None end
     end
   end.
 
@@ -246,10 +242,10 @@ Fixpoint tset_node (t : atree) (n : path) (a : anode) : option atree :=
   | [] => None
   | p :: rest =>
     match t with
-    | ALeaf c ns es => if dhas p ns then Some (ALeaf c (dset p a ns) es) else None
-    | AInner c ss es =>
+    | ALeaf ns es => if dhas p ns then Some (ALeaf (dset p a ns) es) else None
+    | AInner ss es =>
       match dget p ss with
-      | Some s => match tset_node s rest a with Some s' => Some (AInner c (dset p s' ss) es) | None => None end
+      | Some s => match tset_node s rest a with Some s' => Some (AInner (dset p s' ss) es) | None => None end
       | None => None
       end
     end
@@ -280,13 +276,13 @@ Definition tupdate_var (t : atree) (pat : path) (op var : string) (v : val) : op
   end.
 Definition tupdate_edge (t : atree) (s tg : string) (upd : vars) : option atree :=
   match t with
-  | ALeaf c ns es => match edges_update es s tg upd with Some es' => Some (ALeaf c ns es') | None => None end
-  | AInner c ss es => match edges_update es s tg upd with Some es' => Some (AInner c ss es') | None => None end
+  | ALeaf ns es => match edges_update es s tg upd with Some es' => Some (ALeaf ns es') | None => None end
+  | AInner ss es => match edges_update es s tg upd with Some es' => Some (AInner ss es') | None => None end
   end.
 Fixpoint tcollect_edges (t : atree) : list edge :=
   match t with
-  | ALeaf _ _ es => es
-  | AInner _ ss es => es ++ flat_map (fun x => map (prefix_edge (fst x)) (tcollect_edges (snd x))) ss
+  | ALeaf _ es => es
+  | AInner ss es => es ++ flat_map (fun x => map (prefix_edge (fst x)) (tcollect_edges (snd x))) ss
   end.
 
 (* ---------------------------------------------------------------- observation (what the compiler receives) *)
